@@ -10,6 +10,7 @@
   and `server_close_completes_partial` excludes exactly it.
 -/
 import AioftpModel.Model.Lifecycle
+import AioftpModel.Lemmas.ReplyQueue
 
 namespace C12
 open Model Model.Lifecycle Generated
@@ -115,5 +116,72 @@ example :
     held s = [.controlSocket, .listener, .poolPort, .parkedData, .task, .workerData, .file,
               .connEntry, .task, .serverSlot, .userSlot] ∧
     leftAfterFinally s = [] := by decide
+
+/-! ### the session can always reach its `finally`: the reply queue (finding F17, repaired in /repo 351aa57)
+
+A command that ends the session makes the dispatcher wait in `await response_queue.join()` and watch nothing
+else.  `Model.ReplyQueue` is the queue with its writer task under an arbitrary scheduler of puts, takes, finished
+and failed writes; the three facts about `response_writer` and `connection.response` are regenerated. -/
+
+section replyQueue
+
+/-- obligations over the regenerated source -/
+theorem fact_reply_writer_finishes_in_finally : Generated.replyWriterFinishesInFinally = true := by decide
+theorem fact_reply_writer_drains_on_failure : Generated.replyWriterDrainsOnFailure = true := by decide
+theorem fact_reply_skips_dead_writer : Generated.replySkipsDeadWriter = true := by decide
+
+/-- **join_cannot_hang** (every schedule of puts, takes, finished and failed writes): as the source is now,
+    (1) the queue's count of unfinished items is always exactly what is still to be written, so a live writer that
+    has written everything lets `join()` return, and (2) once the writer is gone - the peer vanished, a write timed
+    out - the count is zero and stays zero: the dispatcher's `join()` returns and the `finally` block runs. -/
+theorem join_cannot_hang (evs : List ReplyQueue.Ev) :
+    ReplyQueue.Exact (ReplyQueue.run ReplyQueue.facts ReplyQueue.init evs) ∧
+    ((ReplyQueue.run ReplyQueue.facts ReplyQueue.init evs).writerAlive = false → (ReplyQueue.run ReplyQueue.facts ReplyQueue.init evs).joinReturns) := by
+  have hI := ReplyQueue.run_inv ReplyQueue.facts (by simp [ReplyQueue.facts, fact_reply_writer_finishes_in_finally])
+    (by simp [ReplyQueue.facts, fact_reply_writer_drains_on_failure]) (by simp [ReplyQueue.facts, fact_reply_skips_dead_writer])
+    ReplyQueue.init evs ReplyQueue.init_inv
+  refine ⟨hI.exact, fun hd => ?_⟩
+  have h1 := hI.exact
+  obtain ⟨hq, hw⟩ := hI.dead hd
+  unfold ReplyQueue.Exact at h1
+  simp [ReplyQueue.St.joinReturns, h1, hq, hw]
+
+/-- and whatever is queued later changes nothing: dead stays quiet (stated on its own because `join()` may be
+    called at any later moment) -/
+theorem dead_writer_stays_quiet (evs more : List ReplyQueue.Ev) (hd : (ReplyQueue.run ReplyQueue.facts ReplyQueue.init evs).writerAlive = false) :
+    (ReplyQueue.run ReplyQueue.facts ReplyQueue.init (evs ++ more)).joinReturns := by
+  have hdead : ∀ (s : ReplyQueue.St) (l : List ReplyQueue.Ev), s.writerAlive = false → (ReplyQueue.run ReplyQueue.facts s l).writerAlive = false := by
+    intro s l
+    induction l generalizing s with
+    | nil => exact id
+    | cons e t ih =>
+      intro h
+      simp only [ReplyQueue.run, List.foldl_cons] at ih ⊢
+      apply ih
+      cases e <;> simp [ReplyQueue.step, h] <;> (try split) <;> simp_all
+  have := hdead _ more hd
+  have hrun : ReplyQueue.run ReplyQueue.facts ReplyQueue.init (evs ++ more) = ReplyQueue.run ReplyQueue.facts (ReplyQueue.run ReplyQueue.facts ReplyQueue.init evs) more := by simp [ReplyQueue.run, List.foldl_append]
+  rw [← hrun] at this
+  exact (join_cannot_hang (evs ++ more)).2 this
+
+/-- **old_join_hangs** (the defect, F17): on the pinned shape two replies are queued (EPSV's 229 and QUIT's 221),
+    the write of the first fails because the peer has reset the connection, and the second is never finished:
+    `join()` waits for ever -/
+theorem old_join_hangs :
+    ReplyQueue.run ReplyQueue.oldFacts ReplyQueue.init [.put, .put, .take, .writeFail] =
+      { queued := 1, inWrite := false, unfinished := 1, writerAlive := false } ∧
+    -- and a reply queued AFTER the writer's death is enough as well
+    (ReplyQueue.run ReplyQueue.oldFacts ReplyQueue.init [.put, .take, .writeFail, .put]).unfinished = 1 ∧
+    -- neither half of the repair is enough alone
+    (ReplyQueue.run { finishes := true, drains := true, skips := false } ReplyQueue.init [.put, .take, .writeFail, .put]).unfinished = 1 ∧
+    (ReplyQueue.run { finishes := true, drains := false, skips := true } ReplyQueue.init [.put, .put, .take, .writeFail]).unfinished = 1 ∧
+    (ReplyQueue.run { finishes := false, drains := true, skips := true } ReplyQueue.init [.put, .take, .writeFail]).unfinished = 1 := by
+  decide
+
+/-- non-vacuity: a reachable state with a dead writer and replies that had been queued -/
+example : (ReplyQueue.run ReplyQueue.facts ReplyQueue.init [.put, .put, .put, .take, .writeOk, .take, .writeFail, .put]).writerAlive = false ∧
+    (ReplyQueue.run ReplyQueue.facts ReplyQueue.init [.put, .put, .put, .take, .writeOk, .take, .writeFail, .put]).unfinished = 0 := by decide
+
+end replyQueue
 
 end C12
